@@ -382,6 +382,46 @@ def fk5_specs(tier):
     return out
 
 
+# -- instants at which the nutation in longitude passes through zero ---------------------------------------------------
+
+def run_nutation_zeros(spec, ctx):
+    """spec = (start year, span in years): zeros of the nutation in longitude (a few per 18.6 years, in clusters) are
+    narrowed to adjacent doubles; the apparent positions of four planets are checked there - a correction loop that
+    stops at the first vanishing correction would drop the aberration with it."""
+    y0, span = spec
+    f = lambda t: nutation_longitude(Epoch(t))._deg
+    t = y2jde(y0)
+    end = t + span * 365.25
+    prev = f(t)
+    found = 0
+    while t < end:
+        t2 = t + 3.0
+        cur = f(t2)
+        ctx.evals += 1
+        if (prev > 0.0) != (cur > 0.0):
+            lo, hi, slo = t, t2, prev > 0.0
+            while True:
+                mid = lo + (hi - lo) / 2.0
+                if mid <= lo or mid >= hi:
+                    break
+                if (f(mid) > 0.0) == slo:
+                    lo = mid
+                else:
+                    hi = mid
+            found += 1
+            for x in (lo, hi, math.nextafter(lo, -math.inf), math.nextafter(hi, math.inf), lo - 0.2 / 86400.0, hi + 0.2 / 86400.0):
+                for nm in ("Earth", "Venus", "Mars", "Neptune"):
+                    ctx.evals += 1
+                    ctx.nt_count += 1
+                    for site, msg, dev in check_epoch(nm, x):
+                        ctx.viol({"planet": nm, "jde": x}, msg, dev=dev, site="nutation_zero_" + site)
+        t, prev = t2, cur
+    ctx.count("nutation_zero_crossings", found)
+    ctx.outcome((y0, found))
+    ctx.obs(spec, found)
+    ctx.sample({"planet": "Earth", "jde": y2jde(y0)})
+
+
 # -- monotone longitude over whole orbits ----------------------------------------------
 
 def run_walk(block, ctx):
@@ -689,6 +729,8 @@ def order_zero_specs(tier):
                     continue
                 for y in ((-1990, -1000, 0, 1000, 2000, 3000) if tier == "thorough" else (-1990, 1000, 3000)):
                     out.append((nm, coord, order, y, 990 if tier == "thorough" else 500, 20.0 if slow else 3.0))
+                    if order < len(tab) - 1:
+                        out.append((nm, coord, order, y, 990 if tier == "thorough" else 500, 20.0 if slow else 3.0, "horner"))
     return out
 
 
@@ -696,10 +738,20 @@ def run_order_zeros(spec, ctx):
     """The sum of ONE order of a series (L1, R2, ...) is scanned; every sign change is narrowed to adjacent doubles
     and the evaluator compared with the plain sum there: an accumulation that stops 'when the next order no longer
     changes the result' stops for good where that order happens to pass through zero."""
-    nm, coord, order, y0, span, step = spec
+    nm, coord, order, y0, span, step = spec[:6]
     M, P = mod(nm)
-    ser = {"L": M.VSOP87_L, "B": M.VSOP87_B, "R": M.VSOP87_R}[coord][order]
-    f = lambda j: math.fsum(A * math.cos(B + C * ((j - J2000) / 365250.0)) for A, B, C in ser)
+    tab = {"L": M.VSOP87_L, "B": M.VSOP87_B, "R": M.VSOP87_R}[coord]
+    ser = tab[order]
+    if len(spec) > 6:
+        # the Horner partial sum S_order + t (S_order+1 + t (...)) instead of the single order sum
+        def f(j):
+            t = (j - J2000) / 365250.0
+            acc = 0.0
+            for i in range(len(tab) - 1, order - 1, -1):
+                acc = acc * t + math.fsum(A * math.cos(B + C * t) for A, B, C in tab[i])
+            return acc
+    else:
+        f = lambda j: math.fsum(A * math.cos(B + C * ((j - J2000) / 365250.0)) for A, B, C in ser)
     j = y2jde(y0)
     end = min(j + span * 365.25, y2jde(4000) - 3.0)
     prev = f(j)
@@ -722,7 +774,7 @@ def run_order_zeros(spec, ctx):
             for x in (lo, hi, math.nextafter(lo, -math.inf), math.nextafter(hi, math.inf)):
                 ctx.evals += 1
                 ctx.nt_count += 1
-                case = {"planet": nm, "jde": x, "what": "%s%d passes through zero" % (coord, order)}
+                case = {"planet": nm, "jde": x, "what": "%s%d%s passes through zero" % (coord, order, " (Horner partial sum)" if len(spec) > 6 else "")}
                 for site, msg, dev in check_evaluator_at(nm, x, case["what"]):
                     ctx.viol(case, msg, dev=dev, site="order_zero_" + site)
         j, prev = j2, cur
@@ -805,6 +857,9 @@ def clauses(tier):
                lambda c: [m for _, m, _ in check_coincidence(c)], floor=300),
         Clause("order_sum_zeros", order_zero_specs(tier), run_order_zeros,
                lambda c: [m for _, m, _ in check_evaluator_at(c["planet"], c["jde"], c.get("what", ""))], floor=300),
+        Clause("nutation_zeros", [(y, 5.0) for y in ((1980, 1985, 1990, 1995, 2000, 2005, 2010, 2015, -1000, -995, 3000, 3005)
+                                                   if tier != "thorough" else range(1900, 2100, 5))],
+               run_nutation_zeros, replay_epoch, floor=20),
         Clause("fk5_zero_crossings", fk5_specs(tier), run_fk5_zeros, lambda c: [m for _, m, _ in check_fk5(c)],
                floor=500),
         Clause("tables", [[{"planet": nm} for nm in NAMES]], run_tables,
